@@ -580,7 +580,7 @@ def run(ck: Check):
                     return dict(model_D=H / (n * m), impl_D=d)
                 return None if close(pm, p, 1e-9, 1e-11) else dict(model_p=pm, impl_p=p, D=d, n=n, m=m)
 
-            add(f"(ks_H (A:=FloatA) {X} {Y}, kuiper_fpp (A:=FloatA) {fl(float(b[1]))} {n} {m})", chk_k, "ks_H / kuiper_fpp (FloatA) vs KuiperTest (statistic, p-value)")
+            add(f"(ks_H (A:=FloatA) {X} {Y}, clip01 (A:=FloatA) (kuiper_fpp (A:=FloatA) {fl(float(b[1]))} {n} {m}))", chk_k, "ks_H / clip01 (kuiper_fpp) (FloatA) vs KuiperTest (statistic, p-value)")
 
     # ---------------- Kuiper p-value code on a grid of (D, n, m) (all four branches)
     KT = det_cls("Kuiper")
@@ -717,7 +717,7 @@ ASSUMPTIONS = [
     "forwarding theorems are about Model/Tests.v's Python call semantics (explicit keyword + ** clash => TypeError, unknown keyword => TypeError, defaults); its agreement with CPython/SciPy signatures is checked by the spy-based correspondence on random keyword dictionaries",
     "rank/order/count theorems (midranks, Mann-Whitney U, Cramer-von Mises T, Welch t, chi-square table and statistic) are about exact models over R / Z; the same definitions run at binary64 are compared with the implementation's statistics with tolerance 1e-9",
     "Python's set iteration order is an oracle in the chi-square model (contract: each present category exactly once); the theorem chi2_order_irrelevant makes the statistic independent of it",
-    "the Kuiper p-value model uses Gallina exp/ln (1 ulp) and a Stirling-series Gamma in place of libm/scipy.special: agreement to 1e-9 only; the NaN / >1 witnesses are reproduced on the implementation by this run",
+    "the Kuiper p-value model uses Gallina exp/ln (1 ulp) and a Stirling-series Gamma in place of libm/scipy.special: agreement to 1e-9 only; the theorem gives p in [0,1] only when the binary64 series value is not NaN - that it is not NaN is checked on every case by the monitor (F20 was repaired in /repo 6ddbfc2 by the guard D <= 1/N and np.clip)",
     "samples on which the named test is undefined (all pooled observations equal: anderson_ksamp raises ValueError, Welch's t is 0/0) are run and counted but not flagged",
 ]
 
